@@ -73,7 +73,18 @@ func check(args []string) int {
 	repo := fs.String("repo", "/repo", "repository root")
 	verif := fs.String("verif", defaultVerif(), "verif directory (known findings, evidence)")
 	noEvidence := fs.Bool("no-evidence", false, "do not write evidence (used by variant sub-processes)")
+	overlay := fs.String("overlay", "", "orig=replacement: analyse with the file orig replaced by the contents of replacement (variant runs)")
 	fs.Parse(args[1:])
+	var ov map[string][]byte
+	if *overlay != "" {
+		kv := strings.SplitN(*overlay, "=", 2)
+		b, err := os.ReadFile(kv[1])
+		if err != nil {
+			fmt.Println("load failed: overlay unreadable")
+			return 2
+		}
+		ov = map[string][]byte{kv[0]: b}
+	}
 	if *tier != "quick" && *tier != "thorough" {
 		*tier = "quick"
 	}
@@ -90,9 +101,9 @@ func check(args []string) int {
 		return 2
 	}
 
-	cfgs := []core.Config{{Dir: *repo}}
+	cfgs := []core.Config{{Dir: *repo, Overlay: ov}}
 	if *tier == "thorough" {
-		cfgs = append(cfgs, core.Config{Dir: *repo, GOARCH: "386", Tests: true})
+		cfgs = append(cfgs, core.Config{Dir: *repo, GOARCH: "386"})
 	}
 	results := map[string]*core.Result{}
 	starts := time.Now()
@@ -167,7 +178,3 @@ func defaultVerif() string {
 	return wd
 }
 
-func mutate(args []string) int {
-	fmt.Println("mutate: not built yet")
-	return 2
-}
